@@ -6,6 +6,10 @@
 #include <photospline/cinter/splinetable.h>
 using namespace es;
 static vf::Harness* H;
+// overwrite the stack below us before every evaluation call: scratch that a routine forgets to initialise must not be found
+// pre-filled by the previous, similar call
+static __attribute__((noinline)) void scrub() { static unsigned n = 0; volatile unsigned char buf[24576]; unsigned char v = (n++ & 1) ? 0xFF : 0x5A; for (size_t i = 0; i < sizeof buf; i++) buf[i] = v; }
+#define SCR(e) (scrub(), (e))
 
 static double tol_for(const ref::EvalResult& r, size_t nd, uint32_t maxorder, bool isfloat) {
   double eps = isfloat ? ldexp(1.0, -23) : ldexp(1.0, -52);
@@ -83,8 +87,8 @@ static void check_point(Built& b, const std::vector<double>& x, const std::strin
   for (int m : masks) {
     std::vector<unsigned> der(nd); bool zero = false;
     for (size_t i = 0; i < nd; i++) { der[i] = (m >> i) & 1; if (der[i] && b.spec.dims[i].order == 0) zero = true; }
-    cmp(b, x, der, t.ndsplineeval<float>(x.data(), c.data(), m), true, "mask<float>", tabkey, ptcls, zero);
-    cmp(b, x, der, t.ndsplineeval<double>(x.data(), c.data(), m), false, "mask<double>", tabkey, ptcls, zero);
+    cmp(b, x, der, SCR(t.ndsplineeval<float>(x.data(), c.data(), m)), true, "mask<float>", tabkey, ptcls, zero);
+    cmp(b, x, der, SCR(t.ndsplineeval<double>(x.data(), c.data(), m)), false, "mask<double>", tabkey, ptcls, zero);
     double hp = b.hugepad->ndsplineeval<double>(x.data(), c.data(), m), np = t.ndsplineeval<double>(x.data(), c.data(), m);
     if (memcmp(&hp, &np, 8) && !(hp == np)) H->violation("padding-dependent-derivative:" + coarse(tabkey, ptcls), vf::fmt("[%s] mask=%d x=%s", tabkey.c_str(), m, vf::vecstr(x).c_str()));
   }
@@ -92,14 +96,14 @@ static void check_point(Built& b, const std::vector<double>& x, const std::strin
   if (nd + 1 <= PHOTOSPLINE_MAXDIM) {
     for (int prec = 0; prec < 2; prec++) {
       std::vector<double> g(nd + 1, -1);
-      if (prec == 0) t.ndsplineeval_gradient<float>(x.data(), c.data(), g.data()); else t.ndsplineeval_gradient<double>(x.data(), c.data(), g.data());
+      scrub(); if (prec == 0) t.ndsplineeval_gradient<float>(x.data(), c.data(), g.data()); else t.ndsplineeval_gradient<double>(x.data(), c.data(), g.data());
       const char* e = prec == 0 ? "gradient<float>" : "gradient<double>";
       cmp(b, x, std::vector<unsigned>(nd, 0), g[0], prec == 0, prec == 0 ? "gradient-value<float>" : "gradient-value<double>", tabkey, ptcls, false);
       for (size_t i = 0; i < nd; i++) { std::vector<unsigned> der(nd, 0); der[i] = 1; cmp(b, x, der, g[1 + i], prec == 0, e, tabkey, ptcls, b.spec.dims[i].order == 0); }
     }
     if (nd <= 3) {  // C wrapper
       struct splinetable st; st.data = &t; std::vector<double> g(nd + 1, -1);
-      ndsplineeval_gradient(&st, x.data(), c.data(), g.data());
+      scrub(); ndsplineeval_gradient(&st, x.data(), c.data(), g.data());
       for (size_t i = 0; i < nd; i++) { std::vector<unsigned> der(nd, 0); der[i] = 1; cmp(b, x, der, g[1 + i], true, "C:gradient", tabkey, ptcls, false); }
     }
   }
@@ -109,8 +113,8 @@ static void check_point(Built& b, const std::vector<double>& x, const std::strin
       bool zero = false; for (size_t i = 0; i < nd; i++) if (der[i] > b.spec.dims[i].order) zero = true;
       // on-knot class for the known one-sided issue of derivative orders >= 2
       std::string pc = ptcls;
-      cmp(b, x, der, t.ndsplineeval_deriv(x.data(), c.data(), der.data()), true, "deriv", tabkey, pc, zero);
-      if (nd <= 2) { struct splinetable st; st.data = &t; cmp(b, x, der, ndsplineeval_deriv(&st, x.data(), c.data(), der.data()), true, "C:deriv", tabkey, pc, zero); }
+      cmp(b, x, der, SCR(t.ndsplineeval_deriv(x.data(), c.data(), der.data())), true, "deriv", tabkey, pc, zero);
+      if (nd <= 2) { struct splinetable st; st.data = &t; cmp(b, x, der, SCR(ndsplineeval_deriv(&st, x.data(), c.data(), der.data())), true, "C:deriv", tabkey, pc, zero); }
     }
     double dn = t.ndsplineeval_deriv(x.data(), c.data(), nullptr);
     cmp(b, x, std::vector<unsigned>(nd, 0), dn, true, "deriv(null)", tabkey, ptcls, false);
